@@ -85,7 +85,7 @@ Fixpoint static_slots (rstatic : list prov) (st : list (nat * option nat) * nat)
     (* mustZeroIfRemainderSkipped; a run-group provider that (through Reorder) sits before invoke
        has no mustZeroIfInnerNotCalled list *)
     let zero := match p_class p with ClWrapper | ClFallible => [] | _ => vm_mapped (fst st) end in
-    let st' := add_to_vmap (pflow p FOut) (p_downR p) st in
+    let st' := add_to_vmap (pflow p FOut) [] st in     (* outputs are stored under their own types *)
     let (done, st'') := static_slots r st' in
     ((p, zero) :: done, st'')
   end.
